@@ -244,6 +244,11 @@ func writeReplay(t *testing.T, p *Prop, run, seed uint64, r *simrt.Run, v *simrt
 			budget = 300 * time.Second
 			tries = 500
 		}
+		if s := os.Getenv("VERIF_MIN_BUDGET"); s != "" { // seconds; evaluation of seeded changes keeps it short
+			if v, err := strconv.Atoi(s); err == nil {
+				budget = time.Duration(v) * time.Second
+			}
+		}
 		m, n := minimise(t, p, seed, r, v.Signature(), tier, known, budget, tries)
 		note = fmt.Sprintf("minimised with %d replays: %d -> %d tape entries", n, full, len(m))
 		rec = m
